@@ -185,6 +185,7 @@ type IsoMon struct {
 	seenReq    int
 	lastTok    map[string]string
 	lastTID    map[string]string
+	resets     map[string]map[string]bool // token reset subject -> listed tids
 	seenLog    int
 	// AllowCIDInPayload is set by scenarios whose service model echoes cids.
 	AllowCIDInPayload bool
@@ -227,6 +228,24 @@ func (m *IsoMon) Step(w *World, _ string) {
 			m.lastTok[cid] = string(te.Token)
 			m.lastTID[cid] = te.TID
 		}
+		if r.Kind == "EVT" && r.Subject == "system.tokenReset" {
+			var tr struct {
+				TIDs    []string `json:"tids"`
+				Subject string   `json:"subject"`
+			}
+			json.Unmarshal([]byte(r.Payload), &tr)
+			if m.resets == nil {
+				m.resets = map[string]map[string]bool{}
+			}
+			set := m.resets[tr.Subject]
+			if set == nil {
+				set = map[string]bool{}
+				m.resets[tr.Subject] = set
+			}
+			for _, t := range tr.TIDs {
+				set[t] = true
+			}
+		}
 	}
 	for _, r := range reqs {
 		f := parseReq(r.Payload)
@@ -234,6 +253,12 @@ func (m *IsoMon) Step(w *World, _ string) {
 		for _, cid := range cids {
 			if strings.Contains(r.Subject, cid) && f.CID != "" && cid != f.CID {
 				w.Fail("C10", "foreign-cid-in-subject", "%s is made for %s but its subject names %s", r.CSubject, w.label(f.CID), w.label(cid))
+			}
+		}
+		// a token reset only concerns connections whose token id was listed
+		if set, ok := m.resets[r.Subject]; ok {
+			if tid := m.lastTID[f.CID]; tid == "" || !set[tid] {
+				w.Fail("C10", "tokenreset-fanout", "%s was sent for %s, whose token id %q was not listed in the token reset", r.CSubject, w.label(f.CID), tid)
 			}
 		}
 		if strings.Contains(r.Subject, "{cid}") {
@@ -322,6 +347,12 @@ func (m *DiscMon) End(w *World) {
 			if c.CID == cs.CID && c.Disposed {
 				w.Fail("C11", "still-registered", "%s was closed but is still in the connection table", c.Label)
 			}
+		}
+	}
+	// its place in the token-reset fan-out is released too
+	for _, cid := range w.Cache.VerifConns() {
+		if _, gone := m.goneAt[cid]; gone {
+			w.Fail("C11", "tokenreset-table-kept", "%s is disposed but still registered for token reset fan-out", w.label(cid))
 		}
 	}
 }
